@@ -760,4 +760,21 @@ theorem inv_run {s : State} (h : Inv s) (ops : List Op) : Inv (run s ops) := by
   | nil => exact h
   | cons op ops ih => exact ih (inv_step h op)
 
+/-! ### the generation counter is touched by `store` only -/
+
+theorem generation_deleteNode (s : State) (k : Key) : (deleteNode s k).generation = s.generation := by
+  unfold deleteNode; cases alookup k s.primary <;> rfl
+
+theorem generation_checkLimitsLoop (fuel : Nat) (s : State) (now : Time) (mem : List Bool) :
+    (checkLimitsLoop fuel s now mem).generation = s.generation := by
+  induction fuel generalizing s mem with
+  | zero => rfl
+  | succ n ih =>
+    unfold checkLimitsLoop
+    split
+    · split
+      · rw [ih, generation_deleteNode]
+      · rfl
+    · rfl
+
 end Cppcms.C07
